@@ -24,7 +24,7 @@ def judge(prop: str, rep: core.Report, res: Dict[int, Any], items: Dict[int, Dic
     for tid, (v, r) in res.items():
         it = items[tid]
         rep.evaluations += 1
-        if not v.startswith('skip:') and id(it['doc']) not in seen_docs:
+        if not v.startswith('skip:') and it['doc'] and id(it['doc']) not in seen_docs:
             seen_docs.add(id(it['doc']))
             cen.add(cs.doc_tags(it['doc']))
         if v.startswith('skip:'):
